@@ -12,6 +12,8 @@ import (
 
 type bigIntT = big.Int
 
+var aviewElem = map[string]types.Type{}
+
 type houdiniObl struct {
 	o *Obligation
 	c *Candidate
@@ -66,8 +68,14 @@ func (ex *Exec) instr(fr *Frame, in ssa.Instruction, st *State, pc *Term) *Term 
 		case *types.Pointer:
 			at := under(u.Elem()).(*types.Array)
 			base := ex.term(fr, x.X)
-			ex.safety(fr, "nil", x.Pos(), pc, Neq(base, Null), "nil array pointer")
 			g := BVCmp("bvult", idx, BVu(uint64(at.Len()), 64))
+			if base.op == "app" && strings.HasPrefix(base.name, "aview$") {
+				ex.safety(fr, "index", x.Pos(), pc, g, "index out of range")
+				pc = And(pc, g)
+				fr.vals[x] = elemPtr(at.Elem(), base.args[0], BVOp("bvadd", base.args[1], idx))
+				break
+			}
+			ex.safety(fr, "nil", x.Pos(), pc, Neq(base, Null), "nil array pointer")
 			ex.safety(fr, "index", x.Pos(), pc, g, "index out of range")
 			pc = And(pc, g, Neq(base, Null))
 			fr.vals[x] = elemPtr(at.Elem(), base, idx)
@@ -190,9 +198,12 @@ func (ex *Exec) instr(fr *Frame, in ssa.Instruction, st *State, pc *Term) *Term 
 		ex.safety(fr, "slice", x.Pos(), pc, g, "slice to array pointer: too short")
 		pc = And(pc, g)
 		if sv.Off != BVu(0, 64) {
-			ex.unsupported("slice-to-array-pointer with offset")
+			// a view into the middle of an array: decoded again by loadAt / IndexAddr
+			fr.vals[x] = App("aview$"+sanitize(storageKey(at.Elem())), SRef, sv.Arr, sv.Off)
+			aviewElem[sanitize("aview$"+sanitize(storageKey(at.Elem())))] = at.Elem()
+		} else {
+			fr.vals[x] = sv.Arr
 		}
-		fr.vals[x] = sv.Arr
 	case *ssa.If:
 		c := ex.term(fr, x.Cond)
 		b := x.Block()
@@ -252,7 +263,7 @@ func (ex *Exec) zeroElems(st *State, et types.Type, r *Term) {
 
 // derefCheck emits the nil-dereference obligation for loads/stores through opaque pointers.
 func (ex *Exec) derefCheck(fr *Frame, pv ssa.Value, p *Term, pos token.Pos, pc **Term) {
-	if p.op == "app" && (strings.HasPrefix(p.name, "fld$") || strings.HasPrefix(p.name, "elem$") || strings.HasPrefix(p.name, "glob$") || strings.HasPrefix(p.name, "sub$") || strings.HasPrefix(p.name, "elemref$")) {
+	if p.op == "app" && (strings.HasPrefix(p.name, "fld$") || strings.HasPrefix(p.name, "elem$") || strings.HasPrefix(p.name, "glob$") || strings.HasPrefix(p.name, "sub$") || strings.HasPrefix(p.name, "elemref$") || strings.HasPrefix(p.name, "aview$")) {
 		return
 	}
 	if p.op == "var" && strings.HasPrefix(p.name, "obj$") {
